@@ -1,9 +1,17 @@
 (** C03 - printed log lines are never erased, duplicated or reordered.
-    Only statements; every proof is [exact <lemma from IndProofs>].
-    The screen-level statement C03_log (rows of the terminal) is NOT proved here; what is proved is
-    the bookkeeping that implies it once the terminal lemmas are available (docs/C03.md): how many
-    rows every multi-level call erases and how the two row counters last_line_count /
-    zombie_lines_count move.  All theorems are named _partial for that reason. *)
+    Only statements; every proof is [exact <lemma from IndProofs>] (refutation witnesses: vm_compute).
+    Part 1: counter level, named _partial - how many rows every MultiState call erases and how
+            last_line_count / zombie_lines_count move; every alignment, every fault pattern.
+            (The two unfolding lemmas "a multi draw makes exactly one draw_to_term call" and "every
+            public call reaches the terminal only through the MultiState calls of op_actions" are
+            C02_frame and C02_step_calls in props/C02.v - shared with C02, not counted twice.)
+    Part 2: screen level, C03_log / C03_log_every_op - every printed line (println of the
+            MultiProgress, println of a member, every line a SUSPEND closure writes, through the
+            MultiProgress or through a member) is on the terminal model exactly once, in emission
+            order, above the region, after every call.  Scope: Top alignment, no I/O faults,
+            proviso FitsAll.  Bottom alignment: NO theorem at screen level (oracle only).
+    Part 3: what happens outside the provisos of part 2 - two refutation witnesses on the faithful
+            model (both open findings of the implementation). *)
 From IndModel Require Import MultiSpec.
 From IndProofs Require Import MultiProofs MultiFrame.
 From Coq Require Import List NArith.
@@ -34,17 +42,6 @@ Theorem C03_draw_count_partial : forall (W H : N) (fails : N -> bool) (m : mstat
 Proof. exact ms_draw_count. Qed.
 Print Assumptions C03_draw_count_partial.
 
-(** a refused draw makes no TermLike call at all; an attempted one makes exactly the calls of one
-    draw_to_term with the erase count above and all text lines first *)
-Theorem C03_draw_calls_partial : forall (W H : N) (fails : N -> bool) (m : mstate) (force : bool)
-    (extra : option (list line)) (now c : N),
-  let r := ms_draw W H fails m force extra now c in
-  if ms_attempt W m force extra now
-  then snd (fst (fst r)) = fst (fst (emit fails c (fst (fst (ms_draw_event W H m extra)))))
-  else snd (fst (fst r)) = [] /\ snd (fst r) = c.
-Proof. exact ms_draw_frame. Qed.
-Print Assumptions C03_draw_calls_partial.
-
 (** Keep (drop of a finished bar at the head of the list): rows move from last_line_count to
     zombie_lines_count; their sum is unchanged, nothing is forgotten or invented *)
 Theorem C03_mark_zombie_count_partial : forall (W : N) (m : mstate) (idx : N),
@@ -63,16 +60,6 @@ Theorem C03_clear_count_partial : forall (W H : N) (fails : N -> bool) (m : msta
   /\ snd (fst (fst r)) = fst (fst (emit fails c (fst (fst (draw_to_term [] (region_count m) (tt_align tg) (tt_below tg) W H))))).
 Proof. exact ms_clear_count. Qed.
 Print Assumptions C03_clear_count_partial.
-
-(** every public call reaches the terminal only through the MultiState calls of [op_actions]
-    (+ the closure of suspend): no other code path writes or erases rows *)
-Theorem C03_only_multi_calls_partial : forall (W H : N) (fails : N -> bool) (s : sys) (now : N) (o : op),
-  let x := mp_run W H fails now (s_mp s) (s_calls s) (op_actions W s now o) in
-  s_mp (step_sys W H fails s now o) = fst (fst x)
-  /\ (no_own_term s -> s_calls (step_sys W H fails s now o) = snd x
-                       /\ step_out W H fails s now o = snd (fst x)).
-Proof. exact step_mp. Qed.
-Print Assumptions C03_only_multi_calls_partial.
 
 (* ------------------------------------------------------------------ non-vacuity *)
 (** the old D6 witness (refused draws while the head is a zombie, then println) on the model:
@@ -101,8 +88,10 @@ Proof. vm_compute. repeat split. Qed.
     number of bars, every limiter state / time stamp - histories whose ordinary draws are all
     refused included -, every finish / drop order.
     [hist_log] is read off the calls alone: the lines of every MultiProgress::println, of every
-    ProgressBar::println through a member, and every line written by a suspend closure, in call
-    order.  After the history the rows ever written on the terminal are [pre], then EXACTLY the
+    ProgressBar::println through a member, and every line written by a suspend closure
+    (MultiProgress::suspend and ProgressBar::suspend of a member: clause 2 of the property; the
+    preservation lemma is MultiScreenProofs.suspend_inv - clear, closure lines, forced draw), in
+    call order.  After the history the rows ever written on the terminal are [pre], then EXACTLY the
     wrapping of these lines - each once, in emission order -, then the kept rows and the live
     region (whose row counts are zombie_lines_count and last_line_count), then blank rows only;
     and no printed line is still waiting in orphan_lines. *)
@@ -168,3 +157,73 @@ Example C03_log_example :
   /\ mg_log (snd (fst st)) = [[108;49]; [108;50]; [109;49]; [109;50]; [115]]
   /\ screen 4 (snd st) = map (pad 4) [[36]; [108;49]; [108;50]; [109;49]; [109;50]; [115]; [67;48]].
 Proof. vm_compute. repeat split. Qed.
+
+(* ================================================================== outside the provisos *)
+(** FitsAll cannot be dropped for the log part.  Text lines themselves are NOT limited by the
+    height (FitsAll bounds only the Bar rows and the kept rows: any number of printed lines is
+    inside C03_log, they scroll), but when the BAR rows of a painted frame exceed the height,
+    draw_to_term stops at the first line that does not fit and leaves the cursor in the middle of
+    a row; a following text-only draw continues on that row.  Witness on the model (3 x 1
+    terminal, one member whose frame "AAAA" needs 2 rows; Top alignment, no faults, no suspend):
+    println "x"; println "y" leave the single row "xy" - two printed lines merged into one row.
+    This is the open finding `height-cut-leaves-cursor-mid-row` (D14, registered for C19;
+    C19_text_cut_refuted is the single-bar witness); replayed on the implementation by
+    harness/src/bin/c03.rs `height_cut_case`. *)
+Definition cut_bar : bar := new_bar (Some 10) FAndLeave [PLit [65;65;65;65]] THidden 0.
+Definition cut_s0 : sys := mksys [cut_bar] (new_ms (TTerm (new_ttarget None 0))) 0.
+Definition cut_h : list (N * op) :=
+  [(0, OInsert BEnd 0); (1000000, OTick 0); (2000000, OMPrintln [120]); (3000000, OMPrintln [121])].
+
+Theorem C03_log_outside_fits_refuted :
+  let st := ms_run 3 1 (cut_s0, mghost0, term_init) cut_h in
+  ms_initial cut_s0 /\ ready 3 1 [] term_init
+  /\ MultiSpec.hist_ok 3 1 nofaults cut_s0 cut_h
+  /\ ~ FitsAll 3 1 cut_s0 cut_h                              (* the only hypothesis of C03_log that fails *)
+  /\ hist_log 3 1 cut_s0 cut_h = [[120]; [121]]              (* two lines were printed *)
+  /\ screen 3 (snd st) = [[120; 121; 32]].                   (* one row: "xy " *)
+Proof.
+  cbn zeta. split.
+  - split.
+    + intros b. unfold get_bar, nthN. destruct (N.to_nat b) as [|[|n]]; exact I.
+    + eexists. repeat split. intros i ls Hi. unfold nthN in Hi. cbn in Hi.
+      destruct (N.to_nat i); discriminate Hi.
+  - split; [exact (ready_start 3 1 [] 0 0 ltac:(lia))|].
+    split; [vm_compute; repeat split|].
+    split; [|vm_compute; split; reflexivity].
+    intros F. vm_compute in F. destruct F as (_ & (_ & F & _) & _). discriminate (F eq_refl).
+Qed.
+Print Assumptions C03_log_outside_fits_refuted.
+
+(** The proviso "suspend closures write non-empty lines" (part of FitsAll) hides ONE situation in
+    which the implementation loses a printed line: an EMPTY first line written by a suspend closure
+    while no frame is on the screen and the last call was a write_str that filled the row exactly
+    (text-only draw: the cursor is wrap-pending) only resolves the pending wrap.  Witness on the
+    model (5 x 10, no bars): println "hello"; suspend(|| write_line ""); println "x": three lines
+    were printed, the screen shows "hello", "x" - the empty line has no row.  Open finding
+    `empty-line-after-text-only-draw-swallowed` (C01 and C03; C01_empty_line_swallowed_refuted is
+    the single-bar witness; the shared screen oracle reports exactly this class).  FitsAll excludes
+    EVERY empty closure line, i.e. more than this situation: the other empty lines (frame visible,
+    not the first line, fresh terminal) are covered for a single bar by C01_screen only. *)
+Definition sw_s0 : sys := mksys [] (new_ms (TTerm (new_ttarget None 0))) 0.
+Definition sw_h : list (N * op) :=
+  [(0, OMPrintln [104;101;108;108;111]); (1000000, OMSuspend [[]]); (2000000, OMPrintln [120])].
+
+Theorem C03_empty_line_swallowed_refuted :
+  let st := ms_run 5 10 (sw_s0, mghost0, term_init) sw_h in
+  ms_initial sw_s0 /\ ready 5 10 [] term_init
+  /\ FitsAll 5 10 sw_s0 (firstn 1 sw_h) /\ ~ FitsAll 5 10 sw_s0 sw_h   (* only the empty closure line is outside *)
+  /\ hist_log 5 10 sw_s0 sw_h = [[104;101;108;108;111]; []; [120]]     (* three lines were printed *)
+  /\ screen 5 (snd st) = map (pad 5) [[104;101;108;108;111]; [120]]    (* two rows *)
+  /\ next_cell 5 (snd st) = (2%nat, 0%nat).
+Proof.
+  cbn zeta. split.
+  - split.
+    + intros b. unfold get_bar, nthN. destruct (N.to_nat b) as [|n]; exact I.
+    + eexists. repeat split. intros i ls Hi. unfold nthN in Hi. cbn in Hi.
+      destruct (N.to_nat i); discriminate Hi.
+  - split; [exact (ready_start 5 10 [] 0 0 ltac:(lia))|].
+    split; [vm_compute; repeat (split || intro)|].
+    split; [|vm_compute; repeat split].
+    intros F. vm_compute in F. destruct F as (_ & ((F & _) & _) & _). discriminate F.
+Qed.
+Print Assumptions C03_empty_line_swallowed_refuted.
